@@ -79,10 +79,11 @@ def _z3_bin():
 
 
 def _worker(job):
-    """job = (name, smt2 text, expect, timeout_s, use_cvc5).  z3 and cvc5 run side by side as subprocesses (a hard
+    """job = (name, smt2 text, expect, timeout_s, use_cvc5[, solvers]).  z3 and cvc5 run side by side as subprocesses (a hard
     wall-clock limit is enforced by killing them); the first definitive answer that matches the expectation wins,
     an answer that contradicts it waits for the other solver (cross-check)."""
-    name, txt, expect, timeout_s, use_cvc5 = job
+    name, txt, expect, timeout_s, use_cvc5 = job[:5]
+    solvers = job[5] if len(job) > 5 else ('z3', 'cvc5')
     t0 = time.time()
     res = {'name': name, 'z3': None, 'cvc5': None, 'verdict': 'unknown', 'by': None, 'time': 0.0, 'detail': ''}
     tmpdir = os.environ.get('PYVC_TMP', None)
@@ -92,8 +93,11 @@ def _worker(job):
     procs = {}
     files = [f.name]
     try:
-        procs['z3'] = subprocess.Popen([_z3_bin(), f'-T:{int(timeout_s)}', f.name], stdout=subprocess.PIPE, stderr=subprocess.PIPE, text=True)
-        if use_cvc5:
+        if 'z3' in solvers:
+            procs['z3'] = subprocess.Popen([_z3_bin(), f'-T:{int(timeout_s)}', f.name], stdout=subprocess.PIPE, stderr=subprocess.PIPE, text=True)
+        if 'z3old' in solvers and os.path.exists('/usr/bin/z3'):
+            procs['z3old'] = subprocess.Popen(['/usr/bin/z3', f'-T:{int(timeout_s)}', f.name], stdout=subprocess.PIPE, stderr=subprocess.PIPE, text=True)
+        if use_cvc5 and 'cvc5' in solvers:
             try:
                 p, path = _start_cvc5(txt, timeout_s)
                 procs['cvc5'] = p
@@ -126,11 +130,12 @@ def _worker(job):
         res['z3'] = answers.get('z3')
         res['cvc5'] = answers.get('cvc5')
         definite = {nm: a for nm, a in answers.items() if a in ('sat', 'unsat')}
+        res['answers'] = answers
         if len(set(definite.values())) > 1:
             res['verdict'] = 'disagree'
-            res['detail'] = f'z3={answers.get("z3")} cvc5={answers.get("cvc5")}'
+            res['detail'] = ' '.join(f'{k_}={v_}' for k_, v_ in answers.items())
         elif definite:
-            nm = 'z3' if 'z3' in definite else 'cvc5'
+            nm = [k_ for k_ in ('z3', 'cvc5', 'z3old') if k_ in definite][0]
             res['verdict'] = definite[nm]
             res['by'] = nm
     finally:
@@ -157,11 +162,45 @@ def discharge(obligations, timeout_s=10, procs=None, use_cvc5=True):
     by_name = {ob.name: ob for ob in obligations}
     if not jobs:
         return
+    # cover queries: the hypotheses of every path alone.  A solver that calls them inconsistent although another
+    # finds a model is not believed for the obligations of that path (guards against spurious `unsat` answers:
+    # z3 5.1 was seen to answer unsat on a satisfiable sequence problem, with a satisfiable "core")
+    import hashlib
+    groups = {}
+    for ob in obligations:
+        if getattr(ob, 'smt2', None) is None:
+            continue
+        key = hashlib.sha256('|'.join(sorted(str(h.get_id()) for h in ob.hyps)).encode()).hexdigest()[:16]
+        ob.cover_key = key
+        if key not in groups:
+            groups[key] = to_smt2(ob.hyps, z3.BoolVal(True), 'sat')
+    cover_jobs = [(f'cover:{k_}', txt, 'sat', min(timeout_s, 5), False, ('z3',)) for k_, txt in groups.items()]
     procs = procs or min(16, max(1, len(jobs)))
     ctx = mp.get_context('fork')
+    covers = {}
     with ctx.Pool(procs) as pool:
-        for res in pool.imap_unordered(_worker, jobs, chunksize=1):
+        for res in pool.imap_unordered(_worker, jobs + cover_jobs, chunksize=1):
+            if res['name'].startswith('cover:'):
+                covers[res['name'][6:]] = res
+            else:
+                by_name[res['name']].result = res
+        # second opinion where z3 alone said unsat on a path whose hypotheses z3 itself calls inconsistent
+        redo = []
+        for ob in obligations:
+            r = getattr(ob, 'result', None)
+            c = covers.get(getattr(ob, 'cover_key', None))
+            if r and c and ob.expect == 'unsat' and r.get('verdict') == 'unsat' and r.get('by') == 'z3' and c.get('verdict') == 'unsat':
+                redo.append((ob.name, ob.smt2, ob.expect, timeout_s, True, ('cvc5', 'z3old')))
+            elif r and ob.expect == 'sat' and r.get('verdict') == 'unsat' and r.get('by') == 'z3':
+                # a canary / cover "refuted" by z3 alone is not conclusive
+                redo.append((ob.name, ob.smt2, ob.expect, timeout_s, True, ('cvc5', 'z3old')))
+        for res in pool.imap_unordered(_worker, redo, chunksize=1):
+            res['detail'] = 'z3 (5.1) called the path hypotheses inconsistent; second opinion by cvc5 / z3 4.8: ' + res.get('detail', '')
             by_name[res['name']].result = res
+    for ob in obligations:
+        c = covers.get(getattr(ob, 'cover_key', None))
+        if c is not None and getattr(ob, 'result', None) is not None:
+            ob.result['cover'] = c.get('verdict')
 
 
 def model_for(ob, timeout_s=10, extra=None):
